@@ -18,10 +18,17 @@
   frames suffices for `find_conflicts_within_selection_set` at EVERY selection set, in every context reached: the
   exception flag stays unset. Measure: triples not yet in the two memos (`mu`), times `2R+7`, plus the syntactic nesting
   left (`Lemmas/ValidateOverlapMemo{,2}.lean`).
-  Open: the verdict theorems of the rule (`rule_overlapping_fields_can_be_merged_iff*`) are still stated for the
-  un-memoised search of `Validate/Overlap.lean`; that the memo does not change the verdict is not proved here.
+  The driver (`Validate/ChainMemo.lean: runMemo`) runs the chain of the theorems (un-memoised search) AND the memoised
+  rule `overlapMemoRun`; where the former exhausts its fuel the model's verdict comes from the latter, so cyclic documents
+  are COMPARED with the real validator, no longer skipped. About `overlapMemoRun`: `overlap_memo_run_no_crash` (never
+  crashes), `overlap_memo_no_false_alarm` (clause ⇒ silent, on every document, no side condition),
+  `overlap_memo_neutral_partial` (un-memoised silent ⇒ memoised silent, under `OverlapHyps`).
+  Open: `OverlapMemoNeutralStatement` - the memo never LOSES a report; the correspondence cross-checks it on every
+  generated document (`memo:crosscheck`, evidence key `outside_model`).
 -/
 import PyGqlModel.Lemmas.ValidateOverlapMemo2
+import PyGqlModel.Lemmas.ValidateOverlapMemoSound
+import PyGqlModel.Lemmas.ValidateOverlapWalk2
 import PyGqlModel.Lemmas.ValidateOverlapFuel4
 import PyGqlModel.Props.C06_overlap_hyps3
 namespace PyGql.Props.C06
@@ -86,6 +93,93 @@ theorem within_memo_terminates (s : SchemaD) (fx : Fixes) (h7 : fx.v7 = true) (d
     (withinSelectionSetM s fx fuel p i sels c).2.crash = c.crash :=
   (withinM_terminates s fx d ρ R (rankSyn_of_check s d ρ R hρ) h7 fuel hfuel p i sels c hc h1).2.2.2
 
+/-! ### the memoised RULE as the driver runs it (`Validate/ChainMemo.lean: overlapMemoRun`, `runMemo`) -/
+
+private theorem memoRun_fold (s : SchemaD) (fx : Fixes) (d : Doc) (fuel : Nat) (P : Nat × OCtx → Prop)
+    (hstep : ∀ i sels v acc, (Node.selectionSet i sels, v) ∈ typedNodes s d → P acc →
+      P (acc.1 + (withinSelectionSetM s fx fuel v.parent i sels acc.2).1, (withinSelectionSetM s fx fuel v.parent i sels acc.2).2)) :
+    ∀ (l : List (Node × View)), (∀ q ∈ l, q ∈ typedNodes s d) → ∀ acc, P acc →
+      P (l.foldl (fun (acc : Nat × OCtx) p =>
+        match p.1 with
+        | .selectionSet i sels =>
+          if acc.2.crash.isSome then acc else
+          let r := withinSelectionSetM s fx fuel p.2.parent i sels acc.2
+          (acc.1 + r.1, r.2)
+        | _ => acc) acc) := by
+  intro l
+  induction l with
+  | nil => intro _ acc h; exact h
+  | cons q qs ih =>
+    intro hsub acc h
+    rw [List.foldl_cons]
+    apply ih (fun m hm => hsub m (List.mem_cons_of_mem _ hm))
+    obtain ⟨n, v⟩ := q
+    cases n with
+    | selectionSet i sels =>
+      simp only
+      split
+      · exact h
+      · exact hstep i sels v acc (hsub _ (List.mem_cons_self ..)) h
+    | _ => exact h
+
+/-- **the memoised rule never crashes**, on any document (with syntactic ranks - every parsed document; the driver
+    reports the check as `syn_rank`), cyclic fragment graphs included -/
+theorem overlap_memo_run_no_crash (s : SchemaD) (fx : Fixes) (h7 : fx.v7 = true) (d : Doc)
+    (hρ : rankSynB s d (rankOf (synRanks d)) (maxRank (synRanks d)) = true) :
+    (overlapMemoRun s fx d).2.crash = none := by
+  have hR := rankSyn_of_check s d _ _ hρ
+  unfold overlapMemoRun
+  have := memoRun_fold s fx d (memoFuel d) (fun acc => Good ({ frags := fragTable d } : OCtx) acc.2)
+    (fun i sels v acc hm hacc =>
+      hacc.trans (withinM_terminates s fx d _ _ hR h7 (memoFuel d) (Nat.le_refl _) v.parent i sels acc.2 hacc.1
+        (selSet_of_typed hm)))
+    (typedNodes s d) (fun _ h => h) (0, ({ frags := fragTable d } : OCtx)) (Good.refl _)
+  exact this.2.2.2
+
+/-- **no false alarm, memoised, on EVERY document** (no side condition at all): where the clause of 5.3.2 holds the
+    memoised rule reports nothing -/
+theorem overlap_memo_no_false_alarm (s : SchemaD) (fx : Fixes) (h7 : fx.v7 = true) (d : Doc)
+    (H : Spec.overlappingFieldsCanBeMerged s d) : (overlapMemoRun s fx d).1 = 0 := by
+  unfold overlapMemoRun
+  have := memoRun_fold s fx d (memoFuel d) (fun acc => CI s d acc.2 ∧ acc.1 = 0)
+    (fun i sels v acc hm hacc => by
+      have hs := selSet_of_typed hm
+      have hadm : Adm s d i v.parent := Adm.walk hm
+      obtain ⟨w1, w2⟩ := withinM_sound s fx d h7 (memoFuel d) v.parent i sels acc.2 hacc.1 hs hadm
+      refine ⟨w1, ?_⟩
+      by_cases h0 : 0 < (withinSelectionSetM s fx (memoFuel d) v.parent i sels acc.2).1
+      · obtain ⟨p', rn, e1, e2, z1, z2, z3, z4⟩ := w2 h0
+        exact absurd z4 (H i sels hs p' z1 rn e1 e2 z2 z3)
+      · have := hacc.2
+        simp only
+        omega)
+    (typedNodes s d) (fun _ h => h) (0, ({ frags := fragTable d } : OCtx)) ⟨⟨rfl, fun _ h => nomatch h⟩, rfl⟩
+  exact this.2
+
+/-- verdict-neutrality of the memo: the memoised rule and the un-memoised rule (the one of the theorems) give the
+    same verdict. OPEN in this generality; the per-run cross-check `memo:crosscheck` of the correspondence stands in -/
+def OverlapMemoNeutralStatement : Prop :=
+  ∀ (s : SchemaD) (fx : Fixes) (d : Doc), fx.v7 = true → NoCrash s fx d →
+    ((overlapMemoRun s fx d).1 = 0 ↔ Silent s fx .overlappingFieldsCanBeMerged d)
+
+/-- **verdict-neutrality, the half "the memo never ADDS a report"**: under the side conditions of the rule's
+    equivalence (`OverlapHyps`: parents agree, well-formed spreads, the un-memoised run does not crash - all three
+    follow from the driver's static checks on ranked documents, `overlapHyps_of_wf_ranked`), if the un-memoised rule is
+    silent so is the memoised one. (The other half - the memo never LOSES a report - needs the certificate argument of
+    `ValidateOverlapCert*` redone with a third memo; open.) -/
+theorem overlap_memo_neutral_partial (s : SchemaD) (fx : Fixes) (h7 : fx.v7 = true) (d : Doc)
+    (hpa : Spec.ParentsAgree s d) (hsc : OverlapSide s d) (hnc : NoCrash s fx d)
+    (hsil : Silent s fx .overlappingFieldsCanBeMerged d) : (overlapMemoRun s fx d).1 = 0 :=
+  overlap_memo_no_false_alarm s fx h7 d
+    ((rule_overlapping_fields_can_be_merged_iff_partial s fx h7 d hpa hsc hnc).mp hsil)
+
+/-- consequently: a report of the memoised rule is a genuine violation of 5.3.2, and (under the side conditions) is
+    also reported by the un-memoised rule -/
+theorem overlap_memo_report_genuine (s : SchemaD) (fx : Fixes) (h7 : fx.v7 = true) (d : Doc)
+    (h : 0 < (overlapMemoRun s fx d).1) : ¬ Spec.overlappingFieldsCanBeMerged s d := fun H => by
+  have := overlap_memo_no_false_alarm s fx h7 d H
+  omega
+
 /-! the hunter's document -/
 
 /-- `type Query { q: Query b: Int }` -/
@@ -114,6 +208,16 @@ theorem hunt_doc_syn_ranked : rankSynB hSchema hDoc (rankOf (synRanks hDoc)) (ma
 example : overlapMemoCrash hSchema Fixes.all (fuelBound hDoc (maxRank (synRanks hDoc))) hDoc = none :=
   overlap_memo_terminates hSchema Fixes.all rfl hDoc _ _ hunt_doc_syn_ranked _ (Nat.le_refl _)
 example : fuelBound hDoc (maxRank (synRanks hDoc)) ≤ overlapFuel ∧ overlapMemoCrash hSchema Fixes.all overlapFuel hDoc = none := by
+  decide +kernel
+
+/-- the memoised RULE on the hunter's document: no crash, no error (its only violation is the fragment cycle) -/
+example : (overlapMemoRun hSchema Fixes.all hDoc).1 = 0 ∧ (overlapMemoRun hSchema Fixes.all hDoc).2.crash = none := by
+  decide +kernel
+/-- a conflict inside the cycle (`... ...F a: b a: q }`) is still found -/
+example : let dc : Doc := ⟨[opV [] 1 [.spread "F" []],
+      .frag "F" "Query" [] 2 [.field none "q" [] [] true 3 [.field none "q" [] [] true 4 [.spread "F" []], .spread "F" []],
+        .field (some "a") "b" [] [] false 0 [], .field (some "a") "q" [] [] false 0 []]]⟩
+    0 < (overlapMemoRun hSchema Fixes.all dc).1 ∧ (overlapMemoRun hSchema Fixes.all dc).2.crash = none := by
   decide +kernel
 
 end PyGql.Props.C06
